@@ -15,7 +15,10 @@ RULE = ("seeded random move programs mixing the four lookup kinds (static trap, 
         "subroutine or closure; distinct = distinct (program, spec, arguments).")
 TRUSTED = ["modelled, not verified: kirin lowering, interpreter, CallGraphPass and fold (exercised by every case); "
            "Model/Lang.lean is the reference semantics of the generated sources (validated against the real interpreter on every run)"]
-ASSUMPTIONS = ["coordinates are dyadic rationals for which binary64 arithmetic is exact"]
+ASSUMPTIONS = ["coordinates are dyadic rationals for which binary64 arithmetic is exact",
+               "generated subroutines have no `return` inside a branch: with such a callee kirin's constant propagation folds the "
+               "call to the wrong constant once the spec is known (known finding F26, reproduced and reported under C04, whose "
+               "fixed-source stream contains that program)"]
 
 SPEC_SLOT = None   # read by the generated source: @move(arch_spec=<this>)
 SPEC_SLOT2 = None  # second entry point `main2`, same body, compiled afterwards with this spec
